@@ -107,7 +107,7 @@ Lemma leaf_parse f n rest : path_ok [n] = true -> str_eqb n (L "typeof") = false
 Proof. intros Hn Ht.
   assert (str_eqb n (L "|") = false) as Hb.
   { apply (ident_not_single n "|"%char); [|reflexivity]. cbn [path_ok] in Hn. apply andb_true_iff in Hn as [Hn _].
-    unfold is_ref_head in Hn. apply andb_true_iff in Hn as [Hn _]. exact Hn. }
+    unfold is_ref_head in Hn. apply andb_true_iff in Hn as [Hn _]. unfold is_ident_name in Hn. apply andb_true_iff in Hn as [Hn _]. exact Hn. }
   cbn [p_type]. unfold p_type_body. change (tk_is "|" (KId n)) with (str_eqb n (L "|")). rewrite Hb.
   unfold p_postfix. cbn [p_primary]. rewrite Ht. destruct rest as [|[] r]; reflexivity. Qed.
 
